@@ -564,6 +564,11 @@ class MibCompiler(object):
                 ),
                 dryRun=options.get('dryRun')
             )
+        except NotImplementedError:
+            # only some code generators know how to build an index
+            debug.logger & debug.flagCompiler and debug.logger(
+                'no %s built: not supported by %s' % (self.indexFile, self._codegen))
+
         except error.PySmiError:
             exc_class, exc, tb = sys.exc_info()
             exc.msg += ' at MIB index %s' % self.indexFile
